@@ -1032,6 +1032,13 @@ namespace vh
       state.SetAbsoluteTolerances(atol);
     }
     state.SetRelativeTolerance(in.rtol);
+    // by-name variant: the forcing of the built solver at the initial state (reported per species name below)
+    auto f0 = state.variables_;
+    if (byName)
+    {
+      f0.Fill(0.0);
+      solver.solver_.rates_.AddForcingTerms(state.rate_constants_, state.variables_, f0);
+    }
     auto& rec = Recorder::get();
     rec.matrices.clear();
     rec.limit = in.traceLimit;
@@ -1056,6 +1063,10 @@ namespace vh
       o.key("atol");
       for (std::size_t s = 0; s < in.ns; ++s)
         o.d(state.absolute_tolerance_[col[s]]);
+      o.key("f0");
+      for (std::size_t c = 0; c < in.ncell; ++c)
+        for (std::size_t s = 0; s < in.ns; ++s)
+          o.d(f0[c][col[s]]);
     }
     o.key("trace");
     for (auto& m : rec.matrices)
